@@ -119,6 +119,20 @@ def run_case(ctx, case, model=True):
                 ctx.fail("correspondence", "energy-acc", f"model {[float(x) for x in ma]} impl {list(e_acc)}", where)
             if len(ms) != len(soc_acc) or not all(close(a, b) for a, b in zip(ms, soc_acc)):
                 ctx.fail("correspondence", "soc-acc", f"model {[float(x) for x in ms]} impl {list(soc_acc)}", where)
+    # the caller changes its own series in place (p *= -1: the same energy back) and asks again: the answer follows the series now held,
+    # i.e. equals what a fresh unit reports for it
+    if case["idx"] % 3 == 0 and any(case["p"]):
+        try:
+            comp.power_input *= -1
+            e2, soc2 = comp.get_energy_stored_kj(dt, M), comp.get_soc(dt, M)
+            fresh = comps.make_storage(spec)
+            fresh.power_input = -p
+            e3, soc3 = fresh.get_energy_stored_kj(dt, M), fresh.get_soc(dt, M)
+            ctx.count("series_changed_in_place_between_queries", True)
+            if not close(e2, e3, scale=scale if model and ctx.model_available else abs(e3)) or not close(soc2, soc3):
+                ctx.fail("predicate", "answer-ignores-series-changed-in-place", f"after p *= -1: energy {e2} soc {soc2}; a fresh unit with -p: {e3}, {soc3}", where)
+        except Exception as ex:
+            ctx.fail("predicate", "storage-raises-" + core.error_class(ex), f"second query: {type(ex).__name__}: {ex}", where)
     return True
 
 
